@@ -2,10 +2,17 @@
    extracted inductive types; no Extract Constant. *)
 From Coq Require Import ExtrOcamlBasic.
 From Coq Require Extraction.
-From I18n Require Import Lib.Outcome Model.IntExpr Model.PluralForms Model.Tags Generated.UcdPrintable Model.MsgFormat.
+From I18n Require Import Lib.Outcome.
+From I18n Require Import Model.IntExpr Model.PluralForms.
+From I18n Require Import Model.Tags Generated.UcdPrintable.
+From I18n Require Import Model.MsgFormat.
+From I18n Require Import Model.Dates.
 Extraction Language OCaml.
 Extraction "model.ml"
   IntExpr.parse_string IntExpr.pyeval IntExpr.codomain IntExpr.period
   PluralForms.parse_plural_forms PluralForms.check_plurals_core
   Tags.escape Tags.format_line Tags.priority Tags.in_ranges UcdPrintable.printable_ranges
-  MsgFormat.c_check_args MsgFormat.py_check_args MsgFormat.map_check_args MsgFormat.perl_check_args MsgFormat.plan_message.
+  MsgFormat.c_check_args MsgFormat.py_check_args MsgFormat.map_check_args MsgFormat.perl_check_args MsgFormat.plan_message
+  Dates.fix_date_real Dates.parse_date_re_real Dates.bp_search_real Dates.strip_real Dates.check_dates_real
+  Dates.ord_real Dates.parse_date Dates.stamp_minutes Dates.hint_check
+  .
